@@ -313,6 +313,77 @@ def _split_parallel(stmts):
     return out
 
 
+def _desugar_reduce(stmts):
+    """T = functools.reduce(F, IT, INIT)  ->  T = INIT
+                                             for x in IT: T = F(T, x)
+    with IT a generator expression / comprehension spelled out as loop and
+    filter (directly, or held in a local used only there)."""
+    out = []
+    idx = 0
+    stmts = list(stmts)
+    while idx < len(stmts):
+        st = stmts[idx]
+        call = st.value if isinstance(st, ast.Assign) and \
+            len(st.targets) == 1 and \
+            isinstance(st.targets[0], ast.Name) else None
+        if not (isinstance(call, ast.Call) and
+                ast.unparse(call.func) in ('functools.reduce', 'reduce',
+                                           'six.moves.reduce') and
+                len(call.args) == 3 and not call.keywords):
+            out.append(st)
+            idx += 1
+            continue
+        func, source, init = call.args
+        # the operand held in a local bound right before
+        if isinstance(source, ast.Name) and out and isinstance(
+                out[-1], ast.Assign) and len(out[-1].targets) == 1 and \
+                isinstance(out[-1].targets[0], ast.Name) and \
+                out[-1].targets[0].id == source.id:
+            uses = sum(1 for s2 in stmts for n in ast.walk(s2)
+                       if isinstance(n, ast.Name) and n.id == source.id)
+            if uses == 2 and isinstance(out[-1].value,
+                                        (ast.GeneratorExp, ast.ListComp)):
+                source = out.pop().value
+        target = st.targets[0].id
+        acc = ast.Name(id=target, ctx=ast.Load())
+        first = ast.Assign(targets=[ast.Name(id=target, ctx=ast.Store())],
+                           value=init)
+        if isinstance(source, (ast.GeneratorExp, ast.ListComp)) and \
+                len(source.generators) == 1 and \
+                not source.generators[0].is_async:
+            gen = source.generators[0]
+            loop_target = copy.deepcopy(gen.target)
+            for node in ast.walk(loop_target):
+                if isinstance(node, ast.Name):
+                    node.ctx = ast.Store()
+            step = ast.Assign(
+                targets=[ast.Name(id=target, ctx=ast.Store())],
+                value=ast.Call(func=func, args=[acc, source.elt],
+                               keywords=[]))
+            body = [step]
+            if gen.ifs:
+                test = gen.ifs[0] if len(gen.ifs) == 1 else ast.BoolOp(
+                    op=ast.And(), values=list(gen.ifs))
+                body = [ast.If(test=test, body=[step], orelse=[])]
+            loop = ast.For(target=loop_target, iter=gen.iter, body=body,
+                           orelse=[])
+        else:
+            var = ast.Name(id='_red_%s' % target, ctx=ast.Store())
+            step = ast.Assign(
+                targets=[ast.Name(id=target, ctx=ast.Store())],
+                value=ast.Call(func=func, args=[acc, ast.Name(
+                    id='_red_%s' % target, ctx=ast.Load())], keywords=[]))
+            loop = ast.For(target=var, iter=source, body=[step], orelse=[])
+        for new in (first, loop):
+            ast.copy_location(new, st)
+            for node in ast.walk(new):
+                if not hasattr(node, 'lineno'):
+                    ast.copy_location(node, st)
+        out.extend([first, loop])
+        idx += 1
+    return out
+
+
 def _iterator_temps(stmts):
     """X = CALL(...) ; for T in X: ...  (X not used elsewhere in the list)
     ->  for T in CALL(...): ...   so that adaptors and generator helpers are
@@ -683,7 +754,7 @@ class Inliner(object):
         if len(stack) > MAX_DEPTH:
             return stmts
         out = []
-        for stmt in _iterator_temps(stmts):
+        for stmt in _iterator_temps(_desugar_reduce(stmts)):
             out.extend(self.stmt(caller, stmt, stack))
         return _fuse(_resugar(_split_parallel(out)))
 
